@@ -55,9 +55,12 @@ pub fn gen(rng: &mut Rng, tier: Tier) -> Scn {
         let mut o = gen_object(rng, i, &spec, max_symbols / n as u64 + 8);
         if rng.chance(0.25) {
             o.cenc = *rng.pick(&[CencSpec::Zlib, CencSpec::Deflate, CencSpec::Gzip]);
-            if matches!(o.source, SourceSpec::File | SourceSpec::Stream(_) | SourceSpec::StreamAt(..) | SourceSpec::StreamFailingSeek(..)) {
-                o.source = SourceSpec::Buffer;
-            }
+            // (a content-encoded object from a stream is handed over PRE-ENCODED by the application)
+            o.source = match &o.source {
+                SourceSpec::Stream(s) | SourceSpec::StreamAt(s, _) | SourceSpec::StreamFailingSeek(s, _) => SourceSpec::PreEncodedStream(s.clone()),
+                SourceSpec::File => SourceSpec::Buffer,
+                x => x.clone(),
+            };
         }
         objects.push(o);
     }
